@@ -111,7 +111,7 @@ def main(argv):
     missed = [s for s, r in live.items() if not r.get("detected")]
     print(f"\n{len(live) - len(missed)}/{len(live)} seeded changes detected by their property's {tier} check; missed: {missed}"
           + (f"; obsolete (neutralised by a later fix, skipped): {[s for s in results if s not in live]}" if len(live) != len(results) else ""))
-    with open(os.path.join(HERE, f"last_run_{tier}{'_all' if all_checks else ''}.json"), "w") as f:
+    with open(os.path.join(HERE, f"last_run_{tier}{'_all' if all_checks else ''}{os.environ.get('VERIF_RUN_TAG', '')}.json"), "w") as f:
         json.dump(results, f, indent=1)
     return 0
 
